@@ -115,6 +115,18 @@ def compare_outputs(ctx, prop_sig, p, runs, res, extra=None):
     """returns number of disagreements; reports violations"""
     dis = 0
     if res.error:
+        if cexec.POWER_ZERO_MARK in res.error:
+            ctx.violation("loopy-c-printer:power-zero-folded-to-integer-literal",
+                          f"program {p.index} (seed {ctx.seed}): the kernel applies isnan to `x**0`; loopy's C printer prints "
+                          f"the power as the integer literal 1 and `isnan(1)` does not compile",
+                          {"program_index": p.index, "seed": ctx.seed, "ops": p.ops, **(extra or {})})
+            return 1
+        if cexec.IF_CONDITION_MARK in res.error:
+            ctx.violation("loopy-type-inference:if-with-inexact-condition",
+                          f"program {p.index} (seed {ctx.seed}): `%` / `//` applied to an integer where() whose condition is a "
+                          f"floating-point array: loopy infers the conditional as floating point and refuses the operator",
+                          {"program_index": p.index, "seed": ctx.seed, "ops": p.ops, **(extra or {})})
+            return 1
         if res.stage in ("c-generate", "c-compile", "c-run") :
             # loopy's *C target* (our stand-in executor) cannot handle this kernel although OpenCL code
             # generation succeeded: an executor limitation, not a property violation; counted
